@@ -39,7 +39,9 @@ func c05Source(p c05Params) string {
 		return strconv.Itoa(v)
 	}
 	simple := func() string {
-		switch r.Intn(7) {
+		switch r.Intn(8) {
+		case 7:
+			return "rset " + reg() + ", " + strconv.Itoa(r.Intn(32)) // the real opcode next to its mov alias
 		case 0:
 			return "mov " + reg() + ", " + lit()
 		case 1:
@@ -270,7 +272,7 @@ func C05(tier string) int {
 		Configs:  FilterConfigs(cfgs),
 		Assumptions: []string{
 			"translation validation per source: the real basm front-end (parser, all passes, matcher/chooser, requirement inference, Assembler2BondMachine) is RUN NATIVELY on each source of a generated family - it is not encoded (maps of interfaces, regexp-driven passes, a requirement engine of goroutines) - and the solver decides, per emitted machine, that simulating it (bondmachine.VM.Step, procbuilder.VM.Step and the opcodes' Simulate, executed symbolically) yields tick by tick the external outputs, and at the horizon the registers, of a direct interpretation of the source text, FOR ALL values of the external inputs. The program space is sampled; the input space is quantified",
-			"source family: one CP; romtext section; labels on their own lines (2-4 plus the entry label, several labels may share a line); entry directive; forward/backward j and jz; 0-2 macros without arguments, invoked 0 or more times; mov with decimal/0x/0b/0d literals below 32 (larger ones are rejected since the chooser takes rsets5), mov register-register, inc/dec/add/clr/nop, i2r/r2o; register sizes 8 and 16; 2-4 registers, 0-2 inputs, 1-2 outputs; one source in six has its entry label on a later instruction, one in six has two macro calls in a row, one in five has its entry directive after 1-3 instructions, one in four also has a ROM data section (a one-cell and a three-cell variable, not read by the code)",
+			"source family: one CP; romtext section; labels on their own lines (2-4 plus the entry label, several labels may share a line); entry directive; forward/backward j and jz; 0-2 macros without arguments, invoked 0 or more times; mov with decimal/0x/0b/0d literals below 32 (larger ones are rejected since the chooser takes rsets5), the real rset next to its mov alias, mov register-register, inc/dec/add/clr/nop, i2r/r2o; register sizes 8 and 16; 2-4 registers, 0-2 inputs, 1-2 outputs; one source in six has its entry label on a later instruction, one in six has two macro calls in a row, one in five has its entry directive after 1-3 instructions, one in four also has a ROM data section (a one-cell and a three-cell variable, not read by the code)",
 			"reference: the documented meaning of the source form (a label denotes the instruction after it; execution starts at the entry label; a macro call stands for its body; mov loads the value the literal denotes or copies a register; one instruction per tick); the per-instruction effect is the ISA's (inc/dec/add wrap at the register size)",
 			"environment: external inputs constant and valid from tick 0, outputs acknowledged at once; horizon 2*lines+6 ticks from reset (registers zero)",
 			"second family: two CPs joined by two handshaked links whose output and input indices differ (all four index pairings, consuming endpoint declared first or second), straight-line programs that park in a self-loop, one symbolic external input; compared at the horizon (60 ticks) with a reference in which every CP's source is interpreted on its own and a link carries the value its producer wrote to its consumer: registers of both CPs and the external output",
